@@ -6,6 +6,7 @@
 -/
 import Ladybug.Proofs.C01Lemmas
 import Ladybug.Proofs.C01Header
+import Ladybug.Proofs.C01Obj
 import Ladybug.Props.C08
 
 namespace Epw
@@ -703,5 +704,150 @@ example : ∀ r ∈ [0, 23, 1439, 8783], ∃ dt, Cal.fromDoy true ((r / 24 + 1 :
     missingStamp true ((r + 1) % hoursInYear true) = .ok (dt.month, dt.day, r % 24 + 1) := by
   intro r hr
   exact C01_missing_stamps true r (by simp at hr; rcases hr with rfl | rfl | rfl | rfl <;> decide)
+
+/-! ### Operation histories on ONE object (state machine of Model/EpwObj.lean)
+
+`hrt` is C06's round trip `toIp (toSi v) = v` (the property's "beyond floating-point round-off"); for an
+object that stays in SI it is not used by the model (`St.toSi` of an SI state is the state). -/
+
+section histories
+variable {Tok Val H : Type} (c : Codec Tok Val) (flag : Nat → Bool) (cv : Conv Val) (src : Src Val H)
+
+/-- **Reads are pure.**  On a loaded object every operation that is not an accepted state change – header
+    and data reads, `to_file_string` (also the failing one), `to_wea` (also with an hour outside the year),
+    `to_mos`, `to_dict`, a setter whose argument is rejected, a value list of the wrong length – returns the
+    very state it found.  Hence reads can be repeated and reordered freely (`C01_reads_commute`). -/
+theorem C01_read_pure (hrt : ∀ k v, cv.toIp k (cv.toSi k v) = v) (o : Obj Val H) (ho : o.Loaded)
+    (op : Op Val H) (hm : mutates o op = false) : (step c flag cv src o op).1 = o := by
+  rw [step_of_loaded src c flag cv o ho]
+  exact stepLoaded_pure c flag cv hrt o op hm
+
+/-- Order independence of reads: what a read `q` answers after another read `p` is what it answers
+    without it (and therefore `p; q` and `q; p` see the same answers). -/
+theorem C01_reads_commute (hrt : ∀ k v, cv.toIp k (cv.toSi k v) = v) (o : Obj Val H) (ho : o.Loaded)
+    (p q : Op Val H) (hp : mutates o p = false) :
+    (step c flag cv src (step c flag cv src o p).1 q).2 = (step c flag cv src o q).2 := by
+  rw [C01_read_pure c flag cv src hrt o ho p hp]
+
+/-- An operation that answers with an error is not a state change. -/
+theorem err_not_mutates (o : Obj Val H) (op : Op Val H) (e : Err)
+    (he : (step c flag cv src o op).2 = .err e) : mutates (o.loadData src) op = false := by
+  cases op with
+  | set j v valid =>
+    cases valid
+    · rfl
+    · simp [step, stepLoaded] at he
+  | setValues k vals =>
+    simp only [step, stepLoaded] at he
+    split at he
+    · simp at he
+    · next h => simp only [mutates]; exact Bool.eq_false_iff.mpr h
+  | toIp => simp [step, stepLoaded] at he
+  | toSi => simp [step, stepLoaded] at he
+  | _ => rfl
+
+/-- **A refused operation leaves every observable unchanged**: whatever operation answers with an error
+    (ValueError of a write of incomplete data, IndexError of `to_wea`, AssertionError of a setter, ValueError
+    for a field number outside the file), the object – lazy or loaded, SI or IP – is afterwards in the state a
+    plain load would have put it in, so every later read, write and export answers as if the refused call
+    had not happened. -/
+theorem C01_refused_preserves (hrt : ∀ k v, cv.toIp k (cv.toSi k v) = v) (o : Obj Val H) (ho : o.WF)
+    (op : Op Val H) (e : Err) (he : (step c flag cv src o op).2 = .err e) :
+    (step c flag cv src o op).1.loadData src = o.loadData src ∧
+      ∀ q, observe c flag cv src (step c flag cv src o op).1 q = observe c flag cv src o q := by
+  have hm := err_not_mutates c flag cv src o op e he
+  have hd := loadData_loaded src o ho
+  have h1 : (step c flag cv src o op).1.loadData src = o.loadData src := by
+    rw [loadData_step src c flag cv hrt o ho op, step_of_loaded src c flag cv _ hd]
+    exact stepLoaded_pure c flag cv hrt _ op hm
+  exact ⟨h1, fun q => by simp only [observe, h1]⟩
+
+/-- The accepted state changes of a history are a sub-list of the history, in its order. -/
+theorem C01_pub_sublist (ops : List (Op Val H)) : ∀ o : Obj Val H, (pub c flag cv src o ops).Sublist ops := by
+  induction ops with
+  | nil => intro o; simp [pub]
+  | cons op ops ih =>
+    intro o
+    simp only [pub]
+    split
+    · exact (ih _).cons_cons _
+    · exact (ih _).cons _
+
+/-- **Every history refines the fresh object.**  Take any object satisfying the invariant (a lazy `EPW(path)`,
+    an object from `from_file_string` / `from_dict`), and any history of reads, exports, unit conversions,
+    setters, refused calls, in any order and with any repetition.  Its loaded state is the loaded state of the
+    same starting object on which only `pub` – the accepted state changes, i.e. the state the user established –
+    was performed.  No read, export or refused call leaves a trace. -/
+theorem C01_history_refines_fresh (hrt : ∀ k v, cv.toIp k (cv.toSi k v) = v) (ops : List (Op Val H)) :
+    ∀ o : Obj Val H, o.WF →
+      (run c flag cv src o ops).loadData src = (run c flag cv src o (pub c flag cv src o ops)).loadData src := by
+  induction ops with
+  | nil => intro o _; simp [run, pub]
+  | cons op ops ih =>
+    intro o h
+    have wf1 := step_wf src c flag cv hrt o h op
+    simp only [run, pub]
+    split
+    · simp only [run]
+      exact ih _ wf1
+    · rename_i hm
+      have hm' : mutates (o.loadData src) op = false := by simpa using hm
+      have hd := loadData_loaded src o h
+      have hs : (step c flag cv src o op).1.loadData src = o.loadData src := by
+        rw [loadData_step src c flag cv hrt o h op, step_of_loaded src c flag cv _ hd]
+        exact stepLoaded_pure c flag cv hrt _ op hm'
+      rw [ih _ wf1, run_loadData src c flag cv hrt _ _ wf1, hs, ← run_loadData src c flag cv hrt _ _ h]
+
+/-- The same, for everything a user can ask: every observation after the history is the observation of the
+    object on which only the accepted state changes were performed. -/
+theorem C01_history_observations (hrt : ∀ k v, cv.toIp k (cv.toSi k v) = v) (ops : List (Op Val H))
+    (o : Obj Val H) (ho : o.WF) (q : Op Val H) :
+    observe c flag cv src (run c flag cv src o ops) q =
+      observe c flag cv src (run c flag cv src o (pub c flag cv src o ops)) q := by
+  simp only [observe, C01_history_refines_fresh c flag cv src hrt ops o ho]
+
+/-- A lazy object satisfies the invariant, and so does every object reached from it. -/
+theorem C01_history_invariant (hrt : ∀ k v, cv.toIp k (cv.toSi k v) = v) (ops : List (Op Val H)) :
+    ∀ o : Obj Val H, o.WF → (run c flag cv src o ops).WF := by
+  induction ops with
+  | nil => intro o h; exact h
+  | cons op ops ih => intro o h; exact ih _ (step_wf src c flag cv hrt o h op)
+
+end histories
+
+/-- The loading step of the state machine is `St.loadData` / `importBody` of the file-level model: when the
+    body of the file is accepted (`importBody` answers `b`), loading the lazy object gives exactly the state
+    the state machine continues with (so the body theorems above speak about the columns it holds). -/
+theorem C01_obj_load_bridge {Tok Val H : Type} (c : Codec Tok Val) (flag : Nat → Bool) (f : File Tok)
+    (s : St Val) (sl dsl : List H) (b : Body Val) (hd : s.dataLoaded = false)
+    (hb : importBody c flag (s.loadHeader f).leap f.lines = .ok b) :
+    s.loadData c flag f = .ok ((⟨s, dsl⟩ : Obj Val H).loadData ⟨f.leapHdr, b, sl⟩).st := by
+  obtain ⟨hl, dl, ip, lp, nf, cols⟩ := s
+  simp only at hd
+  subst hd
+  cases hl <;> simp_all [St.loadData, St.loadHeader, Obj.loadData, Obj.loadHeader]
+
+
+namespace C01Ex
+def idc : Codec Nat Nat := ⟨fun _ t => some t, id⟩
+def cv : Conv Nat := ⟨fun _ v => v, fun _ v => v⟩
+def src : Src Nat Nat := ⟨some false, ⟨2, false, [[1, 2], [3, 4]]⟩, [10, 11]⟩
+def ops : List (Op Nat Nat) := [.header, .writeShort 0, .set 1 77 false, .set 0 55 true, .write, .setValues 0 [9]]
+def isErr : Out Nat Nat Nat → Bool
+  | .err _ => true
+  | _ => false
+def fin : Obj Nat Nat := (run idc (fun _ => true) cv src (Obj.lazy [0, 0]) ops).loadData src
+end C01Ex
+
+/-- Non-vacuity: a lazy object of a two-row "year" on ids; header read, failing write, setter refused, setter
+    accepted, write, wrong-length values: only the accepted setter is left in `pub`, the final state is that of
+    the fresh object with that setter alone, and the refused calls answer with errors. -/
+example :
+    (pub C01Ex.idc (fun _ => true) C01Ex.cv C01Ex.src (Obj.lazy [0, 0]) C01Ex.ops).length = 1 ∧
+      C01Ex.fin.slots = [55, 11] ∧ C01Ex.fin.st.cols = [[1, 2], [3, 4]] ∧
+      C01Ex.isErr (step C01Ex.idc (fun _ => true) C01Ex.cv C01Ex.src (Obj.lazy [0, 0]) (.set 1 77 false)).2 = true ∧
+      C01Ex.isErr (step C01Ex.idc (fun _ => true) C01Ex.cv C01Ex.src (Obj.lazy [0, 0]) (.writeShort 0)).2 = true ∧
+      C01Ex.isErr (step C01Ex.idc (fun _ => true) C01Ex.cv C01Ex.src (Obj.lazy [0, 0]) (.field 2)).2 = true := by
+  decide +kernel
 
 end Epw
